@@ -6,6 +6,7 @@ from engine import ppref
 
 ID = "C13"
 LEVEL = "exploration"
+HANG_IS_VIOLATION = True     # every generated case terminates under the model: no reply (twice, then 3x confirmation) is a violation
 ENGINE = "E-hyp"
 TECHNIQUE = "property-based testing: grammar-generated preprocessor sources compared on the token level with an independent reference expander; byte-exact pass-through and string-inviolability checks"
 RULE = ("cases = source texts generated from a grammar of plain tokens, double-quoted strings (containing macro names, //, /*, #), // and /* */ comments (multi-line), "
